@@ -428,13 +428,13 @@ class ClassParser(BaseParser):
 
         for key, field in self.fields.items():
             if field.property:
-                if not setter and field.property.fset:
+                if not setter and (field.property.fset or field.property.fdel):
                     # the value assigned to a property is parsed like any other assignment
                     # before the user's setter gets it (initialization calls the original setter itself)
                     prop = field.property
                     setattr(self.obj, field.attname, property(
                         fget=prop.fget,
-                        fset=self.make_property_setter(field, prop.fset),
+                        fset=self.make_property_setter(field, prop.fset) if prop.fset else None,
                         fdel=self.make_property_deleter(field, prop.fdel) if prop.fdel else None,
                         doc=prop.__doc__,
                     ))
